@@ -55,7 +55,15 @@ fn main() {
             let data = std::fs::read(&path).unwrap_or_else(|e| harness_error(&format!("read {path}: {e}")));
             let v: serde_json::Value = serde_json::from_slice(&data).unwrap_or_else(|e| harness_error(&format!("parse: {e}")));
             let id = v["property"].as_str().unwrap_or("").to_string();
-            with_check!(id.as_str(), c => runner::replay(c, &path))
+            let mut known = vec![];
+            let mut i = 3;
+            while i + 1 < args.len() {
+                if args[i] == "--known" {
+                    known.push(args[i + 1].clone());
+                }
+                i += 2;
+            }
+            with_check!(id.as_str(), c => runner::replay(c, &path, &known))
         }
         Some("selftest-determinism") => {
             let id = args.get(2).cloned().unwrap_or_default();
